@@ -34,7 +34,13 @@ def as_const_classes(ctx: Ctx) -> dict[str, ast.AST]:
 COMPUTING_CALLS = ("f(", "func(", "_cmpop_to_func[", "environment.getitem(", "environment.getattr(")
 
 
-def r0_fold_failures(ctx: Ctx, rid: str = "R0") -> None:
+FOLD_BOOKKEEPING = {
+    "Impossible", "get_eval_context", "tuple", "list", "slice", "Markup", "const", "super", "super().as_const", "env_map.get", "_PassArg.from_obj",
+    "args_as_const", "args.insert", "inspect.iscoroutinefunction", "getattr",
+}
+
+
+def r0_fold_failures(ctx: Ctx, rid: str = "R0", size_rule: bool = False) -> None:
     """Shared with C02: folding must never turn a run-time error into a compile-time one."""
     ctx.use("nodes", "optimizer")
     repo = ctx.repo
@@ -46,7 +52,11 @@ def r0_fold_failures(ctx: Ctx, rid: str = "R0") -> None:
         for c in astq.calls(fn):
             txt = ast.unparse(c)
             f = astq.callee(c)
-            computing = f in ("f", "func") or f.startswith("_cmpop_to_func[") or f.endswith("environment.getitem") or f.endswith("environment.getattr")
+            # anything applied to folded operands computes - except collecting them (tuple /
+            # list / slice of constants cannot fail), the bookkeeping of the common filter
+            # fold, and Markup() of text; dict() hashes its keys, the join helpers convert
+            # every operand to text
+            computing = not (f in FOLD_BOOKKEEPING or f.endswith(".as_const"))
             if not computing:
                 continue
             n += 1
@@ -60,6 +70,17 @@ def r0_fold_failures(ctx: Ctx, rid: str = "R0") -> None:
                       f"{cname}.as_const evaluates `{txt[:60]}` without turning *every* exception into Impossible: an error in an untaken branch or dead code surfaces at compile time instead of being evaluated (or not) at run time",
                       f"src/jinja2/nodes.py:{c.lineno}", detail={"class": cname, "call": txt[:80]})
     ctx.floor("computing calls in as_const", n, 6)
+    # folding evaluates at load time what the template would evaluate at run time; for the
+    # size-amplifying operators the cost is not bounded by the size of the source
+    # (`9**(9**9)`, `'a' * 10**10`): the fold needs a bound on operand magnitude (as CPython's
+    # own constant folder has), otherwise loading a 15-character template does not terminate
+    be = acs.get("BinExpr")
+    if be is not None and size_rule:  # (C01 only: the property with the "never hangs" clause)
+        binops = ast.unparse(repo.module("nodes").assigns.get("_binop_to_func") or ast.Constant(value=None))
+        bounded = any(isinstance(x, ast.Compare) and any(k in ast.unparse(x) for k in ("bit_length", "len(", "MAX_", "_LIMIT", "_limit")) for x in ast.walk(be)) or "safe_" in binops
+        ctx.check(bounded, "BinExpr:fold-size", "nodes:BinExpr.as_const", "pow / mul folded without a bound on the result size",
+                  "BinExpr.as_const applies `**` and `*` to constant operands of any magnitude: `{{ 9**(9**9) }}` (also inside `{% if false %}`) keeps the loader busy for hours and `{{ 'a' * 10**10 }}` builds a 10 GB literal - the template never finishes loading",
+                  f"src/jinja2/nodes.py:{be.lineno}")
     aac = repo.func("nodes:args_as_const")
     for c in astq.calls(aac.node):
         if astq.callee(c) in ("args.extend", "kwargs.update"):
@@ -233,6 +254,12 @@ def r3_safe_repr(ctx: Ctx, rid: str = "R3") -> None:
         nb += 1
         ret = [r for r in b.body if isinstance(r, ast.Return)]
         rtxt = ast.unparse(ret[0].value) if ret else ""
+        if "int" in types:
+            # repr() of an int is a literal only when the conversion to text is allowed at all
+            # (sys.set_int_max_str_digits): the int arm has to try it (or bound the magnitude)
+            probes = [c for c in astq.calls(b) if astq.callee(c) in ("repr", "str") or astq.callee(c).endswith(".bit_length")]
+            ctx.check(bool(probes) and any(isinstance(x, ast.Return) and ast.unparse(x.value) == "False" for x in ast.walk(b)), "atoms:int-convertible", "compiler:has_safe_repr", "int accepted without checking that it converts to text",
+                      "has_safe_repr accepts every int: a folded value such as 10**5000 has no repr (ValueError: Exceeds the limit for integer string conversion), so `{{ 10**5000 }}` / `{% set x = 10**5000 %}` fail with ValueError while the template is loaded", hs.loc(b))
         if rtxt == "True":
             ctx.check(types <= safe_atoms, f"atoms:{sorted(types)}", "compiler:has_safe_repr", f"atomic types {sorted(types - safe_atoms)}", f"types {sorted(types - safe_atoms)} are declared safe but their repr is not a literal", hs.loc(b))
         else:
